@@ -25,6 +25,7 @@ func C01(c *Ctx) {
 		nsc = 1500
 	}
 	progs = append(progs, genr.Scope(nsc, c.Seed+11)...)
+	progs = append(progs, genr.Transformer(nsc, c.Seed+21)...)
 	c.Rep.Rule = "directed + bounded-exhaustive + PRNG control-flow programs, each under every decision-tape path (depth-first over the bits the reference run asks for, capped) and the drain history + truncations; compared: projection of the trace onto MoveNext results and Current values (compiled vs reference coroutine). non-trivial = reference yields >= 2 values on some path; distinct = shape hash x tape."
 	RunE1(c, E1Spec{
 		Programs: progs,
@@ -290,6 +291,9 @@ func C06(c *Ctx) {
 	}
 	progs := append(cases.Consumer(), genr.Consumer(n, c.Seed)...)
 	progs = append(progs, cases.Edge()...)
+	// generators that consume other iterators (range over an iterator with a yielding body, exits before / behind
+	// the yield, in every statement context, with statements after the loop)
+	progs = append(progs, genr.Transformer(n/2, c.Seed+21)...)
 	c.Rep.Rule = "consumer functions in processed files: range loops over iterators (:= and = binding, no variable) with break/continue/return at tape-chosen iterations, nested ranges, pull-then-range-then-pull on ONE iterator, iterators held in struct fields / maps / slices / arrays / channels / closures / func slices / generic boxes, generic and method generators, plain helper functions that return or break out of a range; the generator side logs an effect before each yield, so over-pulling is an extra event; reference = Go's range-over-func over All() on the reference coroutine; compared: full trace under every tape path. non-trivial = trace longer than 10 events; distinct = program text hash x tape."
 	RunE1(c, E1Spec{
 		Programs:             progs,
